@@ -5,6 +5,14 @@ V = "/verif"
 props = [json.loads(l) for l in open(V + "/properties.jsonl")]
 
 CLAIMED = {
+ "C13": dict(
+    text="GUARD/WHO rules over clang CFGs: the open(2) mode in unix_open derives from IO_FLAG_RW only, IO_FLAG_RW in ext2fs_open2 from EXT2_FLAG_RW only, "
+         "and in every tool (e2fsck -n, debugfs without -w, dumpe2fs, tune2fs -l, resize2fs -P, e2image, e2freefrag, e2undo -n, mke2fs -n) each store or argument "
+         "introducing a write mode is control-dependent on the tool's read-only option; every raw open(2) with a write mode is a listed non-device path; "
+         "e2fsck's journal code opens an external journal read-write / dirties the journal superblock only when not read-only or under an accepted prompting fix_problem; "
+         "mke2fs -n reaches no write request; ext2fs_close2 flushes only dirty handles. Because the kernel refuses writes on O_RDONLY descriptors this decides the property's mechanism for all inputs; "
+         "it does not execute the tools.",
+    ref="§4 C13", technique="static analysis: control-dependence (guard) rules, switch-label reachability, who-may-call over the whole-program call graph"),
  "C04": dict(
     text="Static ORDER/GUARD/WHO rules decided on every CFG path of both journal front-ends (e2fsck, debugfs): "
          "replayed blocks are flushed and the flush result propagated before recovery returns; the journal is marked "
